@@ -20,8 +20,8 @@ ASSUMPTIONS = ["csv / xlrd / ElementTree detect malformed containers (not decide
 
 def rule_modes(ctx):
     ctx.res.minimum("O6.1", 2)
-    protocol.reader_rows_table(ctx, "O6.1", {"modes", "faults", "window"}, "Reader.rows")
-    protocol.reader_rows_table(ctx, "O6.1", {"modes", "faults", "window"}, "rows()")
+    protocol.reader_rows_table(ctx, "O6.1", {"modes", "faults"}, "Reader.rows")
+    protocol.reader_rows_table(ctx, "O6.1", {"modes", "faults"}, "rows()")
 
 
 def rule_copies(ctx):
